@@ -173,6 +173,8 @@ def run_case(col, case, only_rect=None):
     size = tuple(case["size"])
     base_sig = dict(kind=case["kind"], family="text" if text else "graphics",
                     sizing="box" if len(size) == 2 else "flow")
+    if case.get("rerender"):
+        base_sig["history"] = "image-rendered-again-at-another-size:" + case["rerender"]["via"]
 
     def bad(clause, what, rect=None, **extra):
         sig = dict(base_sig, clause=clause, **extra)
@@ -254,6 +256,27 @@ def run_case(col, case, only_rect=None):
                     f"(image rows {sorted(exp_img_rows)})", rect=[0, 0, W, H], trim="none")
                 break
 
+    # ---- two-step history: the canvas outlives its render (urwid's canvas cache, parent composite canvases);
+    # the same image is rendered again at another size BEFORE the canvas is trimmed.  Everything above (the
+    # untrimmed rows, their execution, the reference) was computed before this second render.
+    other = None
+    if case.get("rerender"):
+        rr = case["rerender"]
+        if rr["via"] == "same-widget":
+            other = widget.render(tuple(rr["size"]), False)
+        elif rr["via"] == "second-widget":
+            w2 = um.UrwidImage(img, spec, upscale=not case["upscale"])
+            other = w2.render(tuple(rr["size"]), False)
+        else:   # the application resizes the image by hand
+            img.set_size(width=rr["size"][0]) if len(rr["size"]) == 1 else img.set_size(frame_size=tuple(rr["size"]))
+        col.count()
+        if other is not None and other is canv:
+            raise world.HarnessError("second render returned the first canvas")
+        again = [row_bytes(r) for r in canv.content()]
+        if again != full_rows:
+            bad("untrimmed-content-changed-after-rerender", "the untrimmed content of the canvas changed after the "
+                f"image was rendered again at {rr['size']}", rect=[0, 0, W, H], trim="none")
+
     # ---- every sub-rectangle
     nontrivial = 0
     for tl in range(W):
@@ -315,7 +338,7 @@ def run_case(col, case, only_rect=None):
     col.inc("canvases")
     col.inc("proper_trims", nontrivial)
     col.max("trims_per_canvas", nontrivial + 1)
-    del canv, widget
+    del canv, widget, other
     return
 
 
@@ -350,6 +373,22 @@ def build_cases(tier):
                                     continue
                                 cases.append(dict(kind=kind, img=img, size=list(size), h=h, v=v,
                                                   upscale=upscale, alpha=alpha))
+        if fam == "block":
+            # histories: canvas A rendered, the same image rendered again at size B, then A trimmed
+            pairs = [((5, 4), (2, 1)), ((5, 4), (8, 6)), ((6, 3), (2,)), ((6, 3), (9,)), ((4,), (7, 5)),
+                     ((7, 5), (3,)), ((3, 2), (7, 5)), ((7,), (2, 2))]
+            if not quick:
+                pairs += [((8, 6), (3, 3)), ((9,), (4, 2)), ((2, 2), (9, 7)), ((10, 3), (5,))]
+            for img in (["3x2", "runs4x3"] if quick else ["3x2", "4x3", "runs4x3", "runs6x2"]):
+                for a, b in pairs:
+                    for via in ("same-widget", "second-widget", "set_size"):
+                        for h in H_ALIGNS:
+                            for v in V_ALIGNS:
+                                if len(a) == 1 and v != "^":
+                                    continue
+                                for upscale in (False, True):
+                                    cases.append(dict(kind=kind, img=img, size=list(a), h=h, v=v, upscale=upscale,
+                                                      alpha="", rerender=dict(size=list(b), via=via)))
         # portrait / strongly landscape sources: rows((c,)) must announce what render((c,)) produces for every
         # flow width and both sizing modes (the two duplicated size conditions only disagree off the diagonal)
         for img in ("1x4", "2x6", "3x9", "6x1", "8x2", "1x1"):
